@@ -64,6 +64,17 @@ fn alphabet(n: usize, tier: Tier) -> Vec<Dev> {
             s.variants[i].serialize = vec!["zz".into(), "longer".into()];
             true
         }));
+        // attributes read by the parser only: the printed name keeps its case
+        d.push(dev(format!("v{}.ascii_case_insensitive + serialize=[\"esc\", \"Escape\"]", i), &[&format!("ser{}", i), &format!("aci{}", i)], move |s| {
+            s.variants[i].aci = Some(Aci::Bare);
+            s.variants[i].serialize = vec!["esc".into(), "Escape".into()];
+            true
+        }));
+        // characters that need escaping inside a string literal (a name must not be re-lexed)
+        d.push(dev(format!("v{}.to_string=\"q\\\"b\\\\n\"", i), &[&format!("tos{}", i)], move |s| {
+            s.variants[i].to_string = Some("q\"b\\n".into());
+            true
+        }));
         // an EMPTY literal is still the name (to_string = "" -> "", a lone serialize = "" -> "")
         d.push(dev(format!("v{}.serialize=[\"\"] (only spelling)", i), &[&format!("ser{}", i)], move |s| {
             s.variants[i].serialize = vec![String::new()];
